@@ -28,6 +28,8 @@ DECIDED = [
     "R-C07-ALPHABET (prefix): the Redis topic prefixes end with the ':' separator (C11's rule reused)",
     "R-C07-MAP (fresh defaults): ids / timestamps / containers that must differ per object are produced by default_factory (dataclasses) or in the body (functions), never as eager defaults; R-C07-MARKER table row: explicit args_id + args + bucketer -> bucket stored",
     "R-C07-MARKER (round 5): process() hands the delivered payload (the bucket reference), not the resolved arguments, to report_to_broker; R-C07-MAP: no class-body mutable container mutated through self in repid.connections (storage is per broker object)",
+    "R-C07-MAP / R-C07-WIRE (round 6 + sweep): the Redis bucket broker reads the server on every get (no cache); RabbitMQ: the key handed out is (message id, header topic, header queue, AMQP priority or MEDIUM)",
+    "R-C07-AWAITED: in the files this property is anchored in, no bare statement calls a coroutine function (the operation would never run)",
 ]
 NOT_DECIDED = ["value-level identity decode(encode(x)) == x (float round trip of durations at microsecond precision, timezones)"]
 ASSUMPTIONS = ["json round-trips str/int/bool/None; datetime.isoformat/fromisoformat and total_seconds/timedelta(seconds=float) are mutually inverse at the stated precision"]
@@ -37,6 +39,15 @@ DATA = ("repid.data._parameters.Parameters", "repid.data._parameters.DelayProper
 
 
 def run(ctx: Ctx) -> None:
+    from .shared import every_operation_awaited
+
+    every_operation_awaited(ctx, "R-C07-AWAITED")  # in the files this property is anchored in, no asynchronous operation is created and dropped
+    from .brokers import redis_defaults_only_when_missing
+
+    redis_defaults_only_when_missing(ctx, "R-C07-WIRE")  # Redis stores the parameters it was given (defaults only when none were given)
+    from .brokers import rabbit_delivery_details
+
+    rabbit_delivery_details(ctx, "R-C07-WIRE")  # RabbitMQ: the key handed to the consumer is (message id, header topic, header queue, AMQP priority) as published
     from .ladder import check_process_passthrough
 
     check_process_passthrough(ctx, "R-C07-MARKER")  # what is requeued is the delivered payload (the bucket reference), not the resolved arguments
@@ -47,6 +58,9 @@ def run(ctx: Ctx) -> None:
     from .shared import per_instance_state
 
     per_instance_state(ctx, "R-C07-MAP", ("repid.connections.",), "a bucket (or message) stored by one broker is replaced by what another broker object stores under the same id, so the consumer receives other arguments than were enqueued")
+    from .C13 import redis_get_reads_server
+
+    redis_get_reads_server(ctx, "R-C07-MAP")  # argument buckets are read from the server on every delivery (an args_id may be reused with new arguments by another connection)
     codec(ctx)
     mapping(ctx)
     wire(ctx)
@@ -730,7 +744,10 @@ def marker(ctx: Ctx, rule="R-C07-MARKER") -> None:
     bk = [n for n in ast.walk(ca.node) if isinstance(n, ast.Call) and isinstance(n.func, ast.Attribute) and n.func.attr == "BUCKET_CLASS"]
     ok = len(bk) == 1 and {k.arg: unparse(k.value) for k in bk[0].keywords} == {"data": "self.args", "ttl": "self.args_ttl"}
     ctx.check(ok, rule, ca, "bucket carries the serialised arguments and args_ttl", "BUCKET_CLASS(data=self.args, ttl=self.args_ttl)", f"argument bucket is {unparse(bk[0]) if bk else '?'}", instance="args bucket content")
-    vals = sorted({C.utext(ca, v) for v in C.returned_values(ca)})
+    def _pos(txt: str) -> str:
+        return txt.replace("construct(id_=", "construct(")  # the marker's only parameter, by keyword or by position
+
+    vals = sorted({_pos(C.utext(ca, v)) for v in C.returned_values(ca)})
     ctx.check(vals == sorted(["_ArgsBucketInMessageId.construct(self.args_id)", "self.args or ''"]), rule, ca, "marker built from the same args_id, else the inline arguments",
               "construct(self.args_id) | self.args or ''", f"Job._construct_args returns {vals}", instance="marker id")
     g_ca = ctx.cfg(ca)
@@ -756,9 +773,9 @@ def marker(ctx: Ctx, rule="R-C07-MARKER") -> None:
             if n.kind == "return" and n.id in r_:
                 v = n.ast.value
                 if isinstance(v, ast.Name) and len(C.local_defs(ca, v.id)) > 1:
-                    rv |= {C.utext(ca, s_.meta.get("value")) for s_ in g_ca.nodes if s_.kind == "store" and s_.target == v.id and s_.id in r_}
+                    rv |= {_pos(C.utext(ca, s_.meta.get("value"))) for s_ in g_ca.nodes if s_.kind == "store" and s_.target == v.id and s_.id in r_}
                 else:
-                    rv.add(C.utext(ca, v))
+                    rv.add(_pos(C.utext(ca, v)))
         is_marker = rv == {"_ArgsBucketInMessageId.construct(self.args_id)"}
         is_inline = rv == {"self.args or ''"}
         ctx.check((is_marker if want_marker else is_inline) and stored == want_store, rule, ca, f"_construct_args[bucketer={bu}, args={'set' if ha else 'None'}, args_id given={ids}]",
